@@ -259,6 +259,24 @@ def client_keys(ck, stats):
         net.close()
 
 
+def client_names(ck, stats):
+    """"a mismatching device name" on an encrypted session whose ServerHello announces none (firmware that predates the name in
+    the hello): the name in the encrypted HelloResponse is what is compared - a wrong one ends the session with the bad-name
+    error carrying it"""
+    import c06
+    for server_name, name, expected, want in [(None, "other", c06.EXPECTED, "bad"), (None, c06.EXPECTED, c06.EXPECTED, "ok"),
+                                              (None, c06.EXPECTED + "x", c06.EXPECTED, "bad"), (None, "other", None, "ok"),
+                                              (c06.EXPECTED, "other", c06.EXPECTED, "bad")]:
+        res, info = c06.run_one_noise(1, name, server_name, expected, False, None, False)
+        stats["n"] += 1
+        stats["kinds"]["client-name"] = stats["kinds"].get("client-name", 0) + 1
+        good = (res == "ok") if want == "ok" else (res == "err:badName" and info["received_name"] == name and info["state"] == "closed")
+        if not good:
+            ck.violation(f"client-noise-name:{server_name}:{name}:{expected}", f"encrypted session, ServerHello name {server_name!r}, HelloResponse name "
+                         f"{name!r}, expected {expected!r}: connect() ended as {res} (received_name={info['received_name']!r}, state {info['state']})",
+                         {"server_hello_name": server_name, "hello_response_name": name, "expected": expected, "observed": res})
+
+
 def run(ck: Check):
     thorough = ck.tier == "thorough"
     all_ops, all_obs = [], []
@@ -339,6 +357,7 @@ def run(ck: Check):
     all_obs.append(["ok", "d [] closed=requiresEncryption"])
     key_strings(ck, all_ops, all_obs, stats)
     client_keys(ck, stats)
+    client_names(ck, stats)
 
     dis = 0
     if ck.driver_ok:
